@@ -419,6 +419,12 @@ def hypothesis_shard(item: dict[str, Any]) -> Collector:
             row = [draw(st.sampled_from([0.0, 1.0, -1.0, 2.0, 0.5])) for _ in range(n)]
             if not any(row):
                 row[draw(st.integers(0, n - 1))] = 1.0
+            fixed_vars = [i for i in range(n) if mask is not None and not mask[i]]
+            if len(fixed_vars) >= 2 and draw(st.integers(0, 2)) == 0:  # noqa: PLR2004
+                # coefficients on fixed variables that cancel in their sum (the row still depends on the fixed values)
+                i_a, i_b = fixed_vars[0], fixed_vars[-1]
+                row[i_a] = draw(st.sampled_from([1.0, 2.0, 0.5]))
+                row[i_b] = -row[i_a]
             rows.append(row)
         case["A"] = rows
         case["points"] = [draw(st.sampled_from([-2.5, -1.0, -0.3, 0.0, 0.4, 1.0, 1.7, 2.5, 5.0])) for _ in range(12 * n)]
